@@ -218,3 +218,26 @@ Example C01_getitem_example :
   mk_bit_select s (EConst 6 (Sh 3 false)) 4 = Some (EPart s (EConst 6 (Sh 3 false)) 4 1) /\
   mk_getitem_int s 8 = None /\ option_map (denote en) (mk_getitem_int s (-1)) = Some 1.
 Proof. vm_compute. repeat split. Qed.
+
+(* _normalize_patterns and Value.matches regenerated from the source = the model, for every pattern list *)
+Theorem C01_translated_normalize_patterns sh ps : DerivedGen.g_normalize_patterns sh ps = normalize_patterns sh ps.
+Proof. exact (GenEqDerived.gen_normalize_patterns_eq sh ps). Qed.
+Print Assumptions C01_translated_normalize_patterns.
+Theorem C01_translated_matches e raw : DerivedGen.g_matches e raw = mk_matches_raw e raw.
+Proof. exact (GenEqDerived.gen_matches_eq e raw). Qed.
+Print Assumptions C01_translated_matches.
+(* e.matches(...) with patterns as the user writes them (strings with whitespace, integers, enum values): accepted
+   exactly when every string is legal and of e's width; 1 iff some string pattern matches e's bits or some
+   representable integer pattern equals e's value (unrepresentable integers never match) *)
+Theorem C01_matches_raw_spec en e raw r : wf_expr e = true -> env_ok en e -> mk_matches_raw e raw = Some r ->
+  exists ps, normalize_patterns (shape_of e) raw = Some ps /\ wf_expr r = true /\
+             denote en r = b2z (existsb (npat_sem (ewidth e) (denote en e)) ps).
+Proof. exact (mk_matches_raw_spec en e raw r). Qed.
+Print Assumptions C01_matches_raw_spec.
+Example C01_matches_raw_example :
+  let s := ESig 0 (Sh 3 true) in let en : env := fun _ => -2 in
+  option_map (denote en) (mk_matches_raw s [RStr [C1; CSpace; C1; CDash]; RInt 7]) = Some 1 /\
+  option_map (denote en) (mk_matches_raw s [RInt 6; RInt (-2)]) = Some 1 /\
+  option_map (denote en) (mk_matches_raw s [RInt 6]) = Some 0 /\
+  mk_matches_raw s [RStr [C1; C1]] = None /\ mk_matches_raw s [RStr [C1; COther; C1]] = None.
+Proof. vm_compute. repeat split. Qed.
